@@ -8,20 +8,21 @@ import (
 
 // Opts bounds and shapes the random system description.
 type Opts struct {
-	MaxApps   int
-	MaxTypes  int
-	MaxFields int
-	MaxEps    int
-	MaxStmts  int // per block
-	MaxDepth  int // statement nesting
-	Rest      bool
-	Events    bool
-	Mixins    bool
-	Namespace bool
-	Escapes   bool // %xx-escaped names
-	Hostile   bool // hostile strings in attribute values (quotes, backslashes, key-like text)
-	Annos     bool
-	WideStmts bool // >= 3 siblings at each nesting level
+	MaxApps      int
+	MaxTypes     int
+	MaxFields    int
+	MaxEps       int
+	MaxStmts     int // per block
+	MaxDepth     int // statement nesting
+	Rest         bool
+	Events       bool
+	Mixins       bool
+	Namespace    bool
+	Escapes      bool // %xx-escaped names
+	Hostile      bool // hostile strings in attribute values (quotes, backslashes, key-like text)
+	HostileNames bool // hostile characters in application, type and field names (written %xx-escaped)
+	Annos        bool
+	WideStmts    bool // >= 3 siblings at each nesting level
 }
 
 func DefaultOpts(r *fw.Rand, thorough bool) Opts {
@@ -96,8 +97,14 @@ func Build(r *fw.Rand, o Opts) *Spec {
 			a.Parts[len(a.Parts)-1] = a.Parts[len(a.Parts)-1] + []string{" ", "+", "&"}[r.Intn(3)] + "X"
 			b.used["app/"+a.Parts[len(a.Parts)-1]] = true
 		}
+		if o.HostileNames && r.Chance(1, 2) {
+			a.Parts[len(a.Parts)-1] = b.hostileName(a.Parts[len(a.Parts)-1])
+		}
 		if r.Chance(1, 3) {
 			a.Long = b.phrase(2, 4)
+			if o.Hostile && r.Chance(1, 2) {
+				a.Long = hostileStrings[r.Intn(len(hostileStrings))]
+			}
 		}
 		a.Attrs = b.attrs("appattr", 0, 3, true)
 		s.Apps = append(s.Apps, a)
@@ -106,6 +113,9 @@ func Build(r *fw.Rand, o Opts) *Spec {
 		nT := r.Range(0, o.MaxTypes)
 		for i := 0; i < nT; i++ {
 			t := &Type{ID: b.id(), Name: b.uniq(typeWords, "type/"+a.Name())}
+			if o.HostileNames && r.Chance(1, 4) {
+				t.Name = b.hostileName(t.Name)
+			}
 			switch k := r.Intn(10); {
 			case k < 4:
 				t.Kind = "type"
@@ -251,6 +261,13 @@ func (b *builder) phrase(min, max int) string {
 var hostileStrings = []string{
 	`say "hi"`, `back\slash`, "line1\nline2", "tab\there", `k":  v`, `": `, ` lead`, `trail `, `ünï©ode ✓`,
 	`{"a": [1,2]}`, `[x]`, `a,b`, `~tag`, `#notcomment`, `100%`, `a  b`, `":  "`, `\"`, `'single'`,
+}
+
+var hostileNameBits = []string{`":  b`, `\\`, `"q`, ` sp`, `ü`, `": v`, `:c`, `[x]`, `{y}`, `,`, `#`, `'`}
+
+// hostileName keeps the unique base and adds characters that need care in every encoder.
+func (b *builder) hostileName(base string) string {
+	return base + hostileNameBits[b.r.Intn(len(hostileNameBits))]
 }
 
 func (b *builder) strVal() string {
@@ -433,6 +450,9 @@ func (b *builder) fillType(s *Spec, a *App, t *Type) {
 		pk := false
 		for i := 0; i < n; i++ {
 			f := &Field{ID: b.id(), Name: b.uniq(fieldWords, scope)}
+			if b.o.HostileNames && b.r.Chance(1, 5) {
+				f.Name = b.hostileName(f.Name)
+			}
 			f.T = b.typeExpr(s, a, t, true)
 			f.Attrs = b.attrs(scope+f.Name, 0, 2, true)
 			if t.Kind == "table" && !pk && f.T.Prim != "" && f.T.Coll == "" && b.r.Chance(1, 2) {
@@ -494,6 +514,18 @@ func (b *builder) fillType(s *Spec, a *App, t *Type) {
 	}
 }
 
+// plainTypes lists the types whose names need no escaping (path variables and {T} query
+// parameters take the name as written).
+func plainTypes(a *App) []*Type {
+	var out []*Type
+	for _, t := range a.Types() {
+		if RenderName(t.Name) == t.Name {
+			out = append(out, t)
+		}
+	}
+	return out
+}
+
 func (b *builder) restNode(s *Spec, a *App, depth int, taken map[string]bool) *RestNode {
 	n := &RestNode{ID: b.id()}
 	if taken == nil {
@@ -506,7 +538,7 @@ func (b *builder) restNode(s *Spec, a *App, depth int, taken map[string]bool) *R
 			seg := PathSeg{Var: v}
 			if b.r.Chance(3, 4) {
 				seg.Prim = []string{"int", "string", "int64", "bool"}[b.r.Intn(4)]
-			} else if ts := a.Types(); len(ts) > 0 {
+			} else if ts := plainTypes(a); len(ts) > 0 {
 				seg.Ref = ts[b.r.Intn(len(ts))].Name
 			} else {
 				seg.Prim = "string"
@@ -593,7 +625,7 @@ func (b *builder) fillEndpoint(s *Spec, a *App, ep *Endpoint) {
 		n := b.r.Range(1, 3)
 		for i := 0; i < n; i++ {
 			q := QueryParam{Name: b.uniq(fieldWords, scope+"q"), Opt: b.r.Chance(1, 3)}
-			if ts := a.Types(); len(ts) > 0 && b.r.Chance(1, 4) {
+			if ts := plainTypes(a); len(ts) > 0 && b.r.Chance(1, 4) {
 				q.Ref = ts[b.r.Intn(len(ts))].Name
 			} else {
 				q.Prim = []string{"int", "string", "bool", "int32", "date"}[b.r.Intn(5)]
